@@ -13,6 +13,7 @@ def harness_args(run, tier, n, cases):
 
 PROP = {
     "id": "C03",
+    "tie2": ["Tie2Hsms"],
     "harness": "c03",
     "driver": "c03",
     "n_quick": 30000,
